@@ -82,12 +82,12 @@ StepAdd ==
   /\ UNCHANGED reopened
 
 (*----------------------------------------------------------- member ------*)
-MemberChecks(e) ==
-  LET cur == Len(log) - 1
+MemberChecksOn(e, lg, hm, hr) ==
+  LET cur == Len(lg) - 1
       q   == IF e.latest THEN cur ELSE e.q
-      an  == AnswerT(log, hmap, hroot, e.d, q)
-      inserted == e.d \in DOMAIN hmap
-      inRange  == inserted /\ hmap[e.d] <= q /\ q <= cur  \* the quantifier of C01
+      an  == AnswerT(lg, hm, hr, e.d, q)
+      inserted == e.d \in DOMAIN hm
+      inRange  == inserted /\ hm[e.d] <= q /\ q <= cur  \* the quantifier of C01
   IN
   IF e.err
   THEN (IF inRange THEN {Tag("C01", "query for an inserted event failed")} ELSE {})
@@ -99,10 +99,10 @@ MemberChecks(e) ==
         wire == [exists |-> e.exists, actual |-> e.actual, query |-> e.query, key |-> e.key,
                  hyper |-> hp, history |-> hi]
         specAcc == /\ cur >= 0
-                   /\ DigestVerifyIntended(wire, e.d, Root(log, qv), hroot)
+                   /\ DigestVerifyIntended(wire, e.d, Root(lg, qv), hr)
     IN
     (IF inRange /\ ~e.exists THEN {Tag("C01", "inserted event reported absent")} ELSE {})
-    \cup (IF inRange /\ e.exists /\ ~(e.actual \in Positions(log, e.d))
+    \cup (IF inRange /\ e.exists /\ ~(e.actual \in Positions(lg, e.d))
           THEN {Tag("C01", "claimed version is not a position of the event")} ELSE {})
     \cup (IF inRange /\ "v_wire" \in DOMAIN e /\ ~e.v_wire
           THEN {Tag("C01", "honest proof rejected by the client verifier")} ELSE {})
@@ -110,7 +110,7 @@ MemberChecks(e) ==
           THEN {Tag("C01", "no snapshot to verify against")} ELSE {})
     \cup (IF e.current # cur THEN {Tag("C05", "current version is not #events-1")} ELSE {})
     \cup (IF ~inserted /\ e.exists THEN {Tag("C02", "never inserted digest reported present")} ELSE {})
-    \cup (IF "v_wire" \in DOMAIN e /\ e.v_wire /\ ~ClaimTrue(log, wire, e.d)
+    \cup (IF "v_wire" \in DOMAIN e /\ e.v_wire /\ ~ClaimTrue(lg, wire, e.d)
           THEN {Tag("C02", "verifier accepted an answer whose claim is false")} ELSE {})
     \cup (IF "v_wire" \in DOMAIN e /\ "v_local" \in DOMAIN e /\ e.query <= cur /\ e.v_wire # e.v_local
           THEN {Tag("C13", "verdict changed by the wire round trip")} ELSE {})
@@ -119,7 +119,7 @@ MemberChecks(e) ==
           THEN {Tag("C12", "verifier panicked")} ELSE {})
     \cup (IF "wrong_hist" \in DOMAIN e /\ \E i \in 1..Len(e.wrong_hist) :
                 e.wrong_hist[i].acc /\ e.exists /\ e.actual <= e.query
-                 /\ ~VerifyMembership(hi, e.actual, e.query, e.d, Root(log, e.wrong_hist[i].v))
+                 /\ ~VerifyMembership(hi, e.actual, e.query, e.d, Root(lg, e.wrong_hist[i].v))
           THEN {Tag("C02", "proof accepted against another version's history digest")} ELSE {})
     (* diagnostics (D..): real answer differs from the specification's answer although no
        property is falsified by that alone *)
@@ -131,14 +131,16 @@ MemberChecks(e) ==
     \cup (IF "v_wire" \in DOMAIN e /\ e.v_wire # specAcc
           THEN {Tag("D02", "real verifier and specification verifier disagree")} ELSE {})
 
+MemberChecks(e) == MemberChecksOn(e, log, hmap, hroot)
+
 StepMember ==
   /\ Ev.a = "member"
   /\ viol' = viol \cup Fails(MemberChecks(Ev))
   /\ UNCHANGED <<log, hmap, hroot, hyps, reopened>>
 
 (*------------------------------------------------------------- incr ------*)
-IncrChecks(e) ==
-  LET n == Len(log)
+IncrChecksOn(e, lg) ==
+  LET n == Len(lg)
       valid == e.s <= e.e /\ e.e < n IN
   IF e.err
   THEN (IF valid THEN {Tag("C03", "consistency query for a valid pair failed")} ELSE {})
@@ -146,15 +148,15 @@ IncrChecks(e) ==
   ELSE IF ~valid THEN {Tag("C11", "invalid range was answered instead of rejected")}
   ELSE
     LET p == PathTerms(e.path)
-        specV == VerifyIncremental(p, e.rs, e.re, Root(log, e.s), Root(log, e.e))
-        honest == ProveIncremental(log, e.s, e.e)
+        specV == VerifyIncremental(p, e.rs, e.re, Root(lg, e.s), Root(lg, e.e))
+        honest == ProveIncremental(lg, e.s, e.e)
     IN
     (IF ~e.v_wire THEN {Tag("C03", "honest consistency proof rejected")} ELSE {})
     \cup (IF e.rs # e.s \/ e.re # e.e THEN {Tag("C03", "proof names other versions")} ELSE {})
     \cup (IF e.v_wire # e.v_local THEN {Tag("C13", "verdict changed by the wire round trip")} ELSE {})
     \cup (IF ~e.wire_fields THEN {Tag("C13", "field changed by the wire round trip")} ELSE {})
     \cup UNION { LET al == e.alts[i]
-                     \* a forked log agrees with this one on versions before the fork point, so its
+                     \* a forked lg agrees with this one on versions before the fork point, so its
                      \* digest of such a version IS the genuine digest and must be accepted
                      same == \/ (al.k = "end_fork" /\ al.at > e.e)
                              \/ (al.k = "start_fork" /\ al.at > e.s) IN
@@ -166,6 +168,8 @@ IncrChecks(e) ==
           THEN {Tag("C12", "verifier panicked on an altered proof")} ELSE {})
     \cup (IF p # honest THEN {Tag("D03", "consistency audit path differs from the specification")} ELSE {})
     \cup (IF specV # e.v_wire THEN {Tag("D02", "real verifier and specification verifier disagree")} ELSE {})
+
+IncrChecks(e) == IncrChecksOn(e, log)
 
 StepIncr ==
   /\ Ev.a = "incr"
